@@ -143,6 +143,14 @@ def gen_extra(tier):
                     for conj in ('and', 'or'):
                         yield {'fam': 'twin', 'op': op, 'pat': p2, 'op2': rop, 'pat2': rx, 'conj': conj, 'swap': False}
                         yield {'fam': 'twin', 'op': op, 'pat': p2, 'op2': rop, 'pat2': rx, 'conj': conj, 'swap': True}
+    # patterns that reach the program as bare shell words (the shell has removed the quotes): digits, dashes and
+    # column names inside them are text, not arithmetic
+    for pat in ('2018*.txt', '2018*', '2018-rep*', '2018-report.txt', '2018-05-notes*', '2018?01-02.log', 'size*', '5*', 'cb23ef45%', '2018%', '2018-%',
+                '2018%.txt', 'a-b*', '0', '2018'):
+        for op in ('=', '!=', 'like', 'notlike', '===', '!==', '=~', '!=~'):
+            if ('%' in pat and op in ('=', '!=')) or (op in ('=~', '!=~') and any(ch in pat for ch in '*?%')):
+                continue
+            yield {'fam': 'bare-word', 'op': op, 'pat': pat}
     # a regular-expression search root whose segment text is also used as a pattern in WHERE
     for seg in ('proj.*', 'proj[12]', 'proj.?', '[p]roj1'):
         for op in ('=~', '!=~', '=', '!=', 'like', 'notlike'):
@@ -215,6 +223,28 @@ def eval_group(env, group, tier):
                              detail={'query': q, 'missing': sorted(set(exp) - got)[:6], 'extra': sorted(got - set(exp))[:6]})
                 else:
                     r.update(status='ok', sig=tuple(sorted(exp)))
+                outs.append(r)
+                continue
+            if c['fam'] == 'bare-word':
+                bw = env.newdir('c12bw')
+                bnames = ['2018report.txt', '2018-report.txt', '2018-05-notes.md', '2018x01-02.log', '2018', '0', 'size', 'sizes', '5', '55', 'cb23ef45aa',
+                          'a-b.c', '1-1', 'other']
+                for n_ in bnames:
+                    open(os.path.join(bw, n_), 'w').close()
+                argv = ['name', 'from', '.', 'where', 'name', c['op'], c['pat'], 'into', 'list']
+                o = env.run(argv, cwd=bw)
+                env.rmtree(bw)
+                exp = sorted(n_ for n_ in bnames if match(c['op'], c['pat'], n_))
+                case = dict(c, tier=tier, query=' '.join(argv))
+                r = {'case': case, 'nt': 0 < len(exp) < len(bnames), 'layer': 'bare-word', 'trans': len(bnames)}
+                if o.timeout or o.rc != 0 or o.err:
+                    r.update(status='viol', cls='bare-word:status', detail=dict(o.brief(), argv=argv), sig=('err', o.rc))
+                elif sorted(o.rows()) != exp:
+                    got = set(o.rows())
+                    r.update(status='viol', cls='bare-word:' + c['op'] + ':rows', sig=('rows', 'bare', c['op']),
+                             detail={'argv': argv, 'missing': sorted(set(exp) - got)[:6], 'extra': sorted(got - set(exp))[:6]})
+                else:
+                    r.update(status='ok', sig=tuple(exp))
                 outs.append(r)
                 continue
             if c['fam'] in ('twin', 'rxroot'):
